@@ -27,7 +27,7 @@ MANIFEST = {
     'note': 'The overspeed test inside calc_speeds is an assert! (process abort), which the statement forbids; its reachability is exactly the undecided core.',
 }
 EXPLANATION = 'Terms and guards of BrakingPoints::recalc / calc_speeds, SpeedLimitTrainSim::solve_required_pwr / extend_path / walk_internal.'
-RULES = ['C03-1.anchor', 'C03-2.rebuild', 'C03-3.controller', 'C03-4.errors', 'C03-5.window']
+RULES = ['C03-1.anchor', 'C03-2.rebuild', 'C03-3.controller', 'C03-4.errors', 'C03-5.window', 'C03-6.profile']
 ASSUMPTIONS = ['dt > 0, compound mass > 0']
 
 A = [(r'(^|\.)dt$', 'pos'), (r'mass_static$', 'pos'), (r'mass_rot$', 'nonneg')]
@@ -53,6 +53,11 @@ def fields(v):
 
 
 def run(ctx):
+    # the limit in force is the enforced speed profile: the clauses that keep it at or below every posted restriction (C02) are
+    # necessary here too and are reported under this property as well
+    from .common import RuleProxy
+    from . import C02
+    C02.run(RuleProxy(ctx, {'C02-3.add_speeds': 'C03-6.profile', 'C02-5.sites': 'C03-6.profile', 'C02-6.search': 'C03-6.profile', 'C02-7.select': 'C03-6.profile', 'C02-2.seed': 'C03-6.profile'}))
     anchor(ctx)
     rebuild(ctx)
     controller(ctx)
